@@ -669,3 +669,53 @@ func (o *Once) Do(f func()) {
 		o.done = true
 	}
 }
+
+// Pool is the shim for sync.Pool: a deterministic LIFO free list; Put happens-before the Get that
+// returns the item. Outside a simulation it is a real sync.Pool.
+type Pool struct {
+	New   func() interface{}
+	real  sync.Pool
+	items []poolItem
+}
+
+type poolItem struct {
+	v  interface{}
+	vc []uint32
+}
+
+// Get takes an item from the pool or makes a new one.
+func (p *Pool) Get() interface{} {
+	s, t := sim()
+	if s == nil {
+		if v := p.real.Get(); v != nil {
+			return v
+		}
+		if p.New != nil {
+			return p.New()
+		}
+		return nil
+	}
+	s.yield("Pool.Get")
+	if n := len(p.items); n > 0 {
+		it := p.items[n-1]
+		p.items = p.items[:n-1]
+		join(t.vc, it.vc)
+		return it.v
+	}
+	if p.New != nil {
+		return p.New()
+	}
+	return nil
+}
+
+// Put returns an item to the pool.
+func (p *Pool) Put(v interface{}) {
+	s, t := sim()
+	if s == nil {
+		p.real.Put(v)
+		return
+	}
+	p.items = append(p.items, poolItem{v, append([]uint32(nil), t.vc...)})
+	t.vc[t.ID]++
+	s.yield("Pool.Put")
+}
